@@ -242,7 +242,10 @@ def uniformity_and_volume(b, frame_members, to_frame, from_frame, unit, d,
     var_mc = vol_box ** 2 * p_hat * (1 - p_hat) / n_draw
     v_rep = float(np.exp(b.log_v))
     var_rep = reported_variance(b, v_rep)
-    z = (v_rep - v_mc) / np.sqrt(var_mc + var_rep + 1e-300)
+    # (both variances vanish when the members fill the whole box and nothing
+    # is rejected: the relative floor keeps the statistic finite)
+    z = (v_rep - v_mc) / np.sqrt(var_mc + var_rep + (1e-9 * v_mc) ** 2 +
+                                 1e-300)
     res.count('volume-tests')
     info = dict(p=p, G=G, df=df, z=float(z), v_rep=v_rep, v_mc=v_mc,
                 overlap=float(np.mean(mr >= 2)), n_ref=int(n_acc),
